@@ -390,6 +390,8 @@ PROPS = {
                  common=dict(split=4, maxruns=600000)),
             dict(h='mqconc', mode='rc', what='random scenarios and schedules', params=dict(oracle=4),
                  quick=dict(cases=100000, len=400), thorough=dict(cases=20000000, len=400)),
+            dict(h='mqconc', mode='fuzz', what='libFuzzer (coverage-guided) over scenarios and schedules', params=dict(oracle=4),
+                 quick=dict(runs=800000, max_len=400, len=400), thorough=dict(runs=60000000, max_len=400, len=400, timeout=3000)),
         ],
         require={'claims-overlap-in-time': 1000, 'queue-full-at-some-instant': 1000, 'a-claim-failed': 1000, 'two-or-more-interrupts': 1000,
                  'preempted': 1000, 'threads-mode': 1000, 'isr-senders-interrupt-receiver': 1000, 'isr-receiver-interrupts-sender': 500},
@@ -430,6 +432,8 @@ PROPS = {
         ] + [
             dict(h='ringconc', mode='rc', what='random scenarios and schedules', params=dict(oracle=5),
                  quick=dict(cases=100000, len=300), thorough=dict(cases=20000000, len=300)),
+            dict(h='ringconc', mode='fuzz', what='libFuzzer (coverage-guided) over scenarios and schedules', params=dict(oracle=5),
+                 quick=dict(runs=800000, max_len=300, len=300), thorough=dict(runs=60000000, max_len=300, len=300, timeout=3000)),
         ],
         require={'buffer-was-full': 1000, 'buffer-was-empty': 1000, 'put-overlapped-get': 1000, 'putchar-spins-until-room': 500,
                  'isr-producer-interrupts-consumer': 500, 'isr-consumer-interrupts-producer': 500, 'byte-values>=0x80': 1000, 'index-wrapped': 1000, 'large-buffer-length': 500},
@@ -468,6 +472,8 @@ PROPS = {
                  quick=dict(cases=20000, len=300), thorough=dict(cases=5000000, len=300)),
             dict(h='fibconc', mode='rc', what='random scripts, handlers, placements, both modes', params=dict(oracle=6),
                  quick=dict(cases=60000, len=500), thorough=dict(cases=12000000, len=500)),
+            dict(h='fibconc', mode='fuzz', what='libFuzzer (coverage-guided) over scripts, handlers and placements', params=dict(oracle=6),
+                 quick=dict(runs=300000, max_len=500, len=500), thorough=dict(runs=30000000, max_len=500, len=500, timeout=3000)),
         ],
         require={'interrupt-inside-fibre_scheduler_next': 1000, 'interrupt-inside-fibre_run': 200, 'interrupt-inside-fibre_kill': 100,
                  'interrupt-inside-fibre_run_atomic': 50, 'interrupt-nested-between-claim-and-send': 100, 'event-queue-full-path': 500,
